@@ -187,6 +187,14 @@ def main():
   _quiet()
   out = {}
   rc = 0
+  cov = None
+  if os.environ.get('VERIF_COV'):
+    # development aid (tools/coverage_report.sh): which lines of the library do the generated cases execute at all
+    import coverage  # pylint: disable=g-import-not-at-top
+    root = os.path.realpath(os.environ.get('VERIF_REPO', '/repo'))
+    cov = coverage.Coverage(data_file=os.path.join(os.environ['VERIF_COV'], f'cov.{spec["prop"]}.{os.getpid()}'),
+                            include=[root + '/ml_metrics/*'], omit=['*_test.py'])
+    cov.start()
   try:
     from vlib import core  # pylint: disable=g-import-not-at-top
     core.assert_repo()
@@ -204,6 +212,9 @@ def main():
     out = {'harness_error': f'{type(e).__name__}: {e}', 'traceback': traceback.format_exc(),
            'spec': {k: v for k, v in spec.items() if k != 'case'}}
     rc = 2
+  if cov is not None:
+    cov.stop()
+    cov.save()
   with open(spec['out'] + '.tmp', 'w') as f:
     json.dump(out, f, default=str)
   os.replace(spec['out'] + '.tmp', spec['out'])
